@@ -91,6 +91,9 @@ func Run(r *common.Run) error {
 	// every fault point of every standard handshake
 	for bi, base := range handshakes() {
 		clean := e.Do(base, "handshake")
+		if c01.Aborted() {
+			break
+		}
 		if clean.Outcome != "done" {
 			r.Fail("harness", "handshake-not-clean", []string{"C04 " + base.Line(clean)}, "the fault-free handshake does not complete: "+clean.Obs(base.Cfg))
 			continue
@@ -243,8 +246,12 @@ func Run(r *common.Run) error {
 		}
 	}
 	r.Exhaustive = append(r.Exhaustive, "every read/write index (single and permanent failure), every end of input, every failing callback, each failure with the kinds of error value "+errKindsNote(r)+", every cancellation instant and every operation blocking with cancellation while blocked (each with four kinds of context: WithCancel, far deadline + cancel, timeout in a cancelled parent, near deadline expiring), and the same on a plain io.ReadWriter without deadlines (failing operations, ends of input, failing Negotiate, cancellation instants), of 10 instrumented standard handshakes (STARTTLS+auth+voluntary+bind; both roles; TCP/WebSocket; c2s/s2s; pre-secured)")
-	runReal(r)
-	runComponent(e)
+	if !c01.Aborted() {
+		runReal(r)
+	}
+	if !c01.Aborted() {
+		runComponent(e)
+	}
 	n := r.Pick(3000, 40000)
 	for i := 0; i < n; i++ {
 		cs := c01.RandomCase(r.Rnd, true)
